@@ -50,7 +50,7 @@ def features(case, w):
     return sorted(set(fs))
 
 
-def run_chunked(module, cfg, cases, tag, nchunks=None, workers=None, fields=None):
+def run_chunked(module, cfg, cases, tag, nchunks=None, workers=None, fields=None, extra=None):
     """Runs one TLC process per chunk of the corpus, concurrently: the per-program tables of a
     check module are evaluated single-threaded at TLC start-up, so processes scale where
     workers do not."""
@@ -63,7 +63,7 @@ def run_chunked(module, cfg, cases, tag, nchunks=None, workers=None, fields=None
     def one(i):
         flds = fields or (("pid", "prog", "obs") + (("feas",) if "feas" in chunks[i][0] else ()))
         path = write_obs_file(chunks[i], os.path.join(fw.OUT, "work", "%s-%d-%d.json" % (tag, os.getpid(), i)),
-                              fields=flds)
+                              fields=flds, extra=extra)
         try:
             res = run_tlc(module, cfg, env={"OBS_FILE": path, "JAVA_TOOL_OPTIONS": "-Xmx4g"},
                           workers=workers, timeout=6 * 3600)
